@@ -37,15 +37,29 @@ def configs():
         mimetypes.add_type("application/pdf", ".weird")
         mimetypes.add_type("text/html", ".zip")
         mimetypes.add_type("application/zip", ".unknownext")
-    return [("default", default), ("empty", empty), ("hostile", hostile)]
+    def mime_table():
+        # a host database that knows every MIME type of the library's own fallback table under a private extension
+        mimetypes.init()
+        for i, k in enumerate(_mime_keys()):
+            mimetypes.add_type(k, f".c07m{i}")
+    return [("default", default), ("empty", empty), ("hostile", hostile), ("mime-table", mime_table)]
+
+
+def _mime_keys():
+    from sharepoint2text.parsing.mime_types import MIME_TYPE_MAPPING
+    return sorted(MIME_TYPE_MAPPING)
 
 
 def paths(extra=()):
     r = router()
     exts = sorted(set(r._EXTRACTOR_REGISTRY) | set(r._EXTENSION_ALIASES) | {k[1:] for k in r._COMPOUND_EXTENSIONS}
-                  | {"weird", "unknownext", "exe", "", "tar", "TAR.GZ", "jpeg", "xml"})
+                  | {"weird", "unknownext", "exe", "", "tar", "TAR.GZ", "jpeg", "xml", "srt", "text", "nws", "xhtml"})
     stems = ["a", "dir/a", "/abs/x.y", "a b", "http://h/p?q=1&f", ".hidden", "dir.d/", "dir/.", "a.", "x.tar", "..", ""]
     out = list(extra)
+    for i, k in enumerate(_mime_keys()):
+        # names that only the MIME fallback can decide: private extensions (typed by the "mime-table" configuration) and
+        # data: URLs, which carry their type in the string on every host
+        out += [f"a.c07m{i}", f"Dir/B.C07M{i}", f"data:{k};base64,QUJD"]
     for s in stems:
         for e in exts:
             for variant in {e, e.upper(), e.capitalize()}:
@@ -92,11 +106,284 @@ def read_file_dispatch():
     return None
 
 
+# ---------------------------------------------------------------- dispatch sites: archive members, e-mail attachments --
+class Spies:
+    """Every registered extractor function is replaced *in its own module* by a recording stand-in (the router resolves
+    `getattr(module, name)` at call time), so which extractor a dispatch site really calls -- and with which path -- is observed
+    on the real code without needing parseable documents."""
+
+    def __init__(self):
+        import importlib
+        self.calls = []
+        self.saved = []
+        r = router()
+        for ft, (modpath, fn) in r._EXTRACTOR_REGISTRY.items():
+            mod = importlib.import_module(modpath)
+            real = getattr(mod, fn)
+            if getattr(real, "_c07_label", None):
+                continue
+            self.saved.append((mod, fn, real))
+            setattr(mod, fn, self._spy(f"{modpath}.{fn}"))
+        _clear_caches()
+
+    def _spy(self, label):
+        calls = self.calls
+
+        def spy(file_like, path=None):
+            calls.append((label, path))
+            return
+            yield
+        spy._c07_label = label
+        return spy
+
+    def close(self):
+        for mod, fn, real in self.saved:
+            setattr(mod, fn, real)
+        _clear_caches()
+
+
+def _clear_caches():
+    try:
+        from sharepoint2text.parsing.extractors import archive_extractor as a
+    except Exception:
+        return
+    for name in dir(a):
+        f = getattr(a, name, None)
+        if callable(getattr(f, "cache_clear", None)) and name != "_get_router_functions":
+            f.cache_clear()
+
+
+def _label(path):
+    """what the router gives for the file on its own (under spies: the stand-in's label)"""
+    kind, who = outcome(path)
+    if kind != "ok":
+        return None
+    f = router().get_extractor(path)
+    return getattr(f, "_c07_label", who)
+
+
+def member_names():
+    r = router()
+    exts = ["txt", "csv", "json", "md", "html", "pdf", "docx", "xlsx", "eml", "rtf", "epub"] + sorted(r._EXTENSION_ALIASES)[:6] + \
+           ["weird", "unknownext", "srt", "text", "exe", "zip", "tar.gz", "7z", "tgz", "TXT", "Html", "WEIRD"]
+    out = []
+    for d in ("", "docs/", "a b/c.d/", "__MACOSX/", "x/__MACOSX/"):
+        for e in exts:
+            out.append(f"{d}m{len(out)}.{e}")
+    out += ["noext", "docs/.hidden.txt", ".profile", "docs/trailing.", "docs/two.dots.txt", "UPPER.PDF", "dir.txt/inner"]
+    return out
+
+
+def archive_wrappers():
+    """the cached wrappers of archive_extractor against the router they wrap, and the skip rule against its statement"""
+    import os
+    r = router()
+    from sharepoint2text.parsing.extractors import archive_extractor as a
+    sup_c = getattr(a, "_is_supported_file_cached", None)
+    ext_c = getattr(a, "_get_file_extractor_cached", None)
+    skip = getattr(a, "_should_skip_file", None)
+    nested = tuple(getattr(a, "NESTED_ARCHIVE_EXTENSIONS", ()))
+    from sharepoint2text.parsing.exceptions import ExtractionFileFormatNotSupportedError
+    for cname, setup in configs():
+        setup()
+        _clear_caches()
+        for p in paths():
+            if sup_c is not None:
+                got, want = sup_c(p), r.is_supported_file(p)
+                if got != want:
+                    return ({"filename": p, "mimetypes": cname}, f"router.is_supported_file({p!r}) = {want}", f"_is_supported_file_cached -> {got}",
+                            "archive_extractor.py::_is_supported_file_cached")
+            if ext_c is not None:
+                want = outcome(p)
+                try:
+                    f = ext_c(p)
+                    got = ("ok", f"{f.__module__}.{f.__name__}")
+                except ExtractionFileFormatNotSupportedError:
+                    got = ("notsupported", None)
+                except Exception as e:  # noqa
+                    got = ("other", type(e).__name__)
+                if got != want:
+                    return ({"filename": p, "mimetypes": cname}, f"router.get_extractor({p!r}) -> {want}", f"_get_file_extractor_cached -> {got}",
+                            "archive_extractor.py::_get_file_extractor_cached")
+        if skip is not None:
+            for name in member_names() + paths()[::7]:
+                b = os.path.basename(name)
+                want = b.startswith(".") or name.startswith("__MACOSX/") or not r.is_supported_file(b) or b.lower().endswith(nested)
+                got = skip(name, b)
+                if bool(got) != bool(want):
+                    return ({"filename": name, "basename": b, "mimetypes": cname},
+                            f"skipped = hidden | __MACOSX/ | not is_supported_file({b!r}) | nested archive = {want}", f"_should_skip_file -> {got}",
+                            "archive_extractor.py::_should_skip_file")
+    return None
+
+
+def archive_members():
+    """read_archive on in-memory ZIP / TAR archives: the members handed to an extractor are exactly those the router supports
+    (minus hidden / __MACOSX / nested archives), each to get_extractor(base name), with path 'archive!/member'."""
+    import io, os, tarfile, zipfile
+    r = router()
+    from sharepoint2text.parsing.extractors import archive_extractor as a
+    nested = tuple(getattr(a, "NESTED_ARCHIVE_EXTENSIONS", ()))
+    names = member_names()
+    read_archive = a.read_archive            # the real entry point (taken before the registry functions are replaced)
+
+    def build(kind, group):
+        buf = io.BytesIO()
+        if kind == "zip":
+            with zipfile.ZipFile(buf, "w") as zf:
+                for n in group:
+                    zf.writestr(n, b"member " + n.encode())
+        else:
+            with tarfile.open(fileobj=buf, mode="w:gz" if kind == "tar.gz" else "w") as tf:
+                for n in group:
+                    data = b"member " + n.encode()
+                    ti = tarfile.TarInfo(n)
+                    ti.size = len(data)
+                    tf.addfile(ti, io.BytesIO(data))
+        buf.seek(0)
+        return buf
+
+    for cname, setup in configs():
+        if cname == "empty":
+            continue
+        setup()
+        spies = Spies()
+        try:
+            for kind in ("zip", "tar", "tar.gz"):
+                groups = [names] + [[n] for n in names]          # all at once (order), then one member per archive (minimal input)
+                for group in groups:
+                    del spies.calls[:]
+                    _clear_caches()
+                    apath = f"bundle.{kind}"
+                    exc = None
+                    try:
+                        list(read_archive(build(kind, group), apath))
+                    except Exception as e:  # noqa
+                        exc = e
+                    want = []
+                    for n in group:
+                        b = os.path.basename(n)
+                        if b.startswith(".") or n.startswith("__MACOSX/") or not r.is_supported_file(b) or b.lower().endswith(nested):
+                            continue
+                        want.append((_label(b), f"{apath}!/{n}"))
+                    if exc is not None or spies.calls != want:
+                        if len(group) > 1:
+                            continue          # find the minimal single-member input below
+                        return ({"archive": kind, "members": group, "archive_path": apath, "mimetypes": cname},
+                                {"dispatches (extractor of get_extractor(basename), path)": want},
+                                {"dispatches": list(spies.calls), "exception": repr(exc) if exc else None},
+                                "archive_extractor.py::read_archive")
+                # order / interference between members: the full archive once more, strictly
+                del spies.calls[:]
+                _clear_caches()
+                apath = f"bundle.{kind}"
+                try:
+                    list(read_archive(build(kind, names), apath))
+                    exc = None
+                except Exception as e:  # noqa
+                    exc = e
+                want = [(_label(os.path.basename(n)), f"{apath}!/{n}") for n in names
+                        if not (os.path.basename(n).startswith(".") or n.startswith("__MACOSX/") or not r.is_supported_file(os.path.basename(n))
+                                or os.path.basename(n).lower().endswith(nested))]
+                if exc is not None or spies.calls != want:
+                    miss = [w for w in want if w not in spies.calls][:3]
+                    extra = [c for c in spies.calls if c not in want][:3]
+                    return ({"archive": kind, "members": names, "archive_path": apath, "mimetypes": cname},
+                            {"dispatches": len(want), "first missing": miss}, {"dispatches": len(spies.calls), "first unexpected": extra,
+                                                                                "exception": repr(exc) if exc else None},
+                            "archive_extractor.py::read_archive")
+        finally:
+            spies.close()
+    return None
+
+
+def attachment_dispatch():
+    """EmailContent.iterate_supported_attachments: per supported attachment the extractor is the one get_extractor gives for the
+    attachment's FILE NAME; only when the router has none for the name, the registry entry of the declared MIME type; else skipped."""
+    import io
+    r = router()
+    from sharepoint2text.parsing.extractors.data_types import EmailAddress, EmailAttachment, EmailContent
+    from sharepoint2text.parsing.mime_types import MIME_TYPE_MAPPING, is_supported_mime_type
+    mimes = sorted(MIME_TYPE_MAPPING) + ["application/octet-stream", "application/x-unknown", ""]
+    stems = ["report", "ATT00001", "a b", "x.y"]
+    exts = sorted(set(r._EXTRACTOR_REGISTRY) | set(r._EXTENSION_ALIASES)) + ["tar.gz", "bin", "xyz123", ""]
+    names = [f"{stems[i % len(stems)]}.{e}" if e else stems[i % len(stems)] for i, e in enumerate(exts)] + ["EXPORT.CSV", "Page.Html"]
+    mimetypes.init()
+    spies = Spies()
+    try:
+        def expected(fn, mt, flag):
+            if not flag:
+                return []
+            lab = _label(fn)
+            if lab is None:
+                ft = MIME_TYPE_MAPPING.get(mt)
+                if not ft:
+                    return []
+                mod, f = r._EXTRACTOR_REGISTRY[ft]
+                lab = f"{mod}.{f}"
+            return [(lab, fn)]
+
+        def run(seq):
+            del spies.calls[:]
+            atts = [EmailAttachment(filename=fn, mime_type=mt, data=io.BytesIO(b"0123456789"), is_supported_mime_type=flag) for (fn, mt, flag) in seq]
+            c = EmailContent(from_email=EmailAddress(), attachments=atts)
+            exc = None
+            try:
+                list(c.iterate_supported_attachments())
+            except Exception as e:  # noqa
+                exc = e
+            want = [x for a_ in seq for x in expected(*a_)]
+            if exc is not None or spies.calls != want:
+                return ({"attachments (filename, declared mime_type, is_supported_mime_type)": [list(x) for x in seq], "mimetypes": "default"},
+                        {"extractor calls (get_extractor(filename), else registry entry of the MIME type; name passed)": want},
+                        {"extractor calls": list(spies.calls), "exception": repr(exc) if exc else None},
+                        "data_types.py::EmailContent.iterate_supported_attachments")
+            return None
+
+        singles = [(fn, mt, bool(is_supported_mime_type(mt))) for fn in names for mt in mimes]
+        singles += [(fn, mt, True) for fn in names[:12] for mt in ("application/octet-stream", "application/x-unknown")]
+        for a_ in singles:
+            bad = run([a_])
+            if bad:
+                return bad
+        # state must not leak between attachments: pairs sharing a declared type with differently routed names, both orders
+        probe = [("export.csv", "application/vnd.ms-excel", True), ("book.xls", "application/vnd.ms-excel", True), ("noext", "application/vnd.ms-excel", True),
+                 ("page.html", "text/plain", True), ("a.txt", "text/plain", True), ("report.docx", "application/zip", True), ("b.zip", "application/zip", True)]
+        for x in probe:
+            for y in probe:
+                bad = run([x, y]) or run([x, y, x])
+                if bad:
+                    return bad
+    finally:
+        spies.close()
+    return None
+
+
+def _site_checks(req):
+    """directed searches for the dispatch sites; the one the obligation is about runs first"""
+    oid = (req.get("obligation") or "") + " " + (req.get("function") or "")
+    checks = [("archive_extractor", archive_wrappers), ("archive_extractor", archive_members), ("data_types", attachment_dispatch)]
+    checks.sort(key=lambda c: 0 if c[0] in oid else 1)
+    for _k, fn in checks:
+        try:
+            bad = fn()
+        finally:
+            mimetypes.init()
+        if bad is not None:
+            return {"reproduced": True, "target": "sharepoint2text/parsing/extractors/" + bad[3], "inputs": bad[0], "expected": bad[1], "observed": bad[2]}
+    return None
+
+
 def find(req):
     r = router()
     rf = read_file_dispatch()
     if rf is not None:
         return {"reproduced": True, "target": "sharepoint2text/__init__.py::read_file", "inputs": rf[0], "expected": rf[1], "observed": rf[2]}
+    oid = (req.get("obligation") or "") + " " + (req.get("function") or "")
+    if "archive_extractor" in oid or "data_types" in oid:
+        site = _site_checks(req)
+        if site is not None:
+            return site
     w = req.get("witness") or {}
     extra = [w["path"]] if isinstance(w.get("path"), str) else []
     if isinstance(w.get("path_lower"), str):
@@ -134,7 +421,11 @@ def find(req):
                 if oa != ob or oa[0] != "ok":
                     return _res(f"{s}.{a}", cname, f"alias .{a} behaves like .{b}", f"{oa} vs {ob}", tried)
     mimetypes.init()
-    return {"reproduced": False, "note": f"{tried} native path/config cases agree"}
+    if not ("archive_extractor" in oid or "data_types" in oid):
+        site = _site_checks(req)
+        if site is not None:
+            return site
+    return {"reproduced": False, "note": f"{tried} native path/config cases agree; archive member and attachment dispatch sites agree with the router"}
 
 
 def _res(p, cfg, want, got, tried):
@@ -144,5 +435,5 @@ def _res(p, cfg, want, got, tried):
 
 
 def rerun(stored):
-    r = find({"witness": {"path": stored.get("inputs", {}).get("path")}})
+    r = find({"witness": {"path": stored.get("inputs", {}).get("path")}, "obligation": stored.get("obligation"), "function": stored.get("target")})
     return r
